@@ -155,3 +155,20 @@ def build(w, o, goal, until=None):
 def subsets(items, upto):
     for k in range(0, upto + 1):
         yield from itertools.combinations(items, k)
+
+
+def replay_file(ctx, pid, path, nontrivial):
+    """--replay <file>: re-executes the recorded scenario of a VIOLATION (seeded random families are regenerated from their
+    seed, which reproduces the same steps on the same tree) and lets TLC judge it again; returns True if it was handled"""
+    import json
+    with open(path, encoding="utf-8") as f:
+        rec = json.load(f).get("replay") or {}
+    topo, prof, seed = rec.get("topology"), rec.get("profile"), rec.get("seed")
+    if topo in R.TOPOLOGIES and prof in R.PROFILES and isinstance(seed, int):
+        steps = max(300, int(rec.get("event_index") or 0) + 50)
+        tr, w = R.random_run(topo, seed, prof, steps, max_circuits=6 if rec.get("family") == "six-circuits" else 3)
+        check_escapes(ctx, w, tr, "replay:%s/%s" % (topo, prof))
+        validate_family(ctx, pid, [tr], topo, w.header(), "replay:%s/%s" % (topo, prof), nontrivial)
+        ctx.sample({"replayed": {"topology": topo, "profile": prof, "seed": seed, "events": len(tr["events"])}})
+        return True
+    return False
